@@ -204,7 +204,9 @@ func (w *worker) expiry(e string) time.Time {
 	return time.Unix(0, 0)
 }
 
-func usesBanEnv(kind string) bool { return kind == kBanned || kind == kBanControl }
+func usesBanEnv(kind string) bool {
+	return kind == kBanned || kind == kBanControl || kind == kBannedAlias
+}
 
 const kBanControl = "ban-control" // minted on the cluster-enabled broker and not banned
 
@@ -238,6 +240,16 @@ func (w *worker) mint(lic int, k keySpec) (string, error) {
 		b := event.Ban(s)
 		env.Svc.VerifCluster().VerifState().Add(&b)
 		return s, nil
+	case kBannedAlias:
+		// a key whose text contains '-' (about every third one), banned as issued, presented respelled
+		for try := 0; !strings.Contains(s, "-") && try < 200; try++ {
+			if s, err = env.Key(k.Target, k.Mask, w.expiry(k.Expiry)); err != nil {
+				return "", err
+			}
+		}
+		b := event.Ban(s)
+		env.Svc.VerifCluster().VerifState().Add(&b)
+		return strings.ReplaceAll(s, "-", "+"), nil
 	}
 	raw, err := env.Cipher.DecryptKey([]byte(s))
 	if err != nil {
@@ -747,7 +759,7 @@ func (w *worker) check(t Tuple, st *stats) {
 func (w *worker) keyKinds(lic int, withBan bool, st *stats) {
 	kinds := []string{kRecrafted, kContractP1, kContract0, kSignature, kMaster2, kMaster0, kAllForeign, kOtherCipher, kOtherBoth}
 	if withBan {
-		kinds = append(kinds, kBanControl, kBanned)
+		kinds = append(kinds, kBanControl, kBanned, kBannedAlias)
 	}
 	for _, kind := range kinds {
 		for _, p := range reprPairs {
